@@ -1,0 +1,136 @@
+//go:build verif
+
+// Machine-checked contracts for package bytecode (property C17, instruction encoding only).
+// Comment-only file read by /verif/bin/evyvc.
+
+package bytecode
+
+// The opcode table is a package-level literal: every opcode has a definition with no operand or one operand of
+// width 2 (assumption read off the literal in code.go; nothing writes the table after initialisation).
+//@ global forall(op, Opcode, has(definitions, op) ==> definitions[op] != nil && len(definitions[op].OperandWidths) <= 1 && (len(definitions[op].OperandWidths) == 1 ==> definitions[op].OperandWidths[0] == 2))
+//@ global ErrUnknownOpcode != nil
+
+//@ func Lookup(op Opcode) (def *OpDefinition, err error)
+//@   props C17
+//@   ensures[C17 known-opcode] (err == nil) <==> has(definitions, op)
+//@   ensures[C17 definition] err == nil ==> def == definitions[op]
+//@   ensures[C17 unknown-opcode] err != nil ==> def == nil && wraps(err, ErrUnknownOpcode)
+//@   modifies nothing
+
+//@ func ReadUint16(ins Instructions) (r uint16)
+//@   props C17
+//@   requires[two-bytes] len(ins) >= 2
+//@   ensures[C17 big-endian] int(r) == int(ins[0]) * 256 + int(ins[1])
+//@   modifies nothing
+
+// Make encodes an instruction: opcode byte followed by each operand in two bytes, big endian. An operand must fit
+// into its two bytes (the conversion truncates silently otherwise) and there must be one operand per width.
+//@ func Make(op Opcode, operands []int) (ins []byte, err error)
+//@   props C17
+//@   requires[operand-count] has(definitions, op) ==> len(operands) == len(definitions[op].OperandWidths)
+//@   requires[operand-fits] forall(i, int, 0 <= i && i < len(operands) ==> 0 <= operands[i] && operands[i] < 65536)
+//@   ensures[C17 known-opcode] (err == nil) <==> has(definitions, op)
+//@   ensures[C17 layout] err == nil ==> fresh(ins) && len(ins) == 1 + 2 * len(operands) && int(ins[0]) == int(op)
+//@   ensures[C17 operand-encoded] err == nil && len(operands) == 1 ==> int(ins[1]) * 256 + int(ins[2]) == operands[0]
+//@   ensures[C17 unknown-opcode] err != nil ==> base(ins) == 0
+//@   modifies nothing
+//@   loop 1 invariant -1 <= rangeindex && rangeindex < len(def.OperandWidths) && instructionLen == 1 + 2 * (rangeindex + 1)
+//@   loop 2 modifies instruction[*]
+//@   loop 2 invariant -1 <= rangeindex && rangeindex < len(operands) && offset == 1 + 2 * (rangeindex + 1) && fresh(instruction) && len(instruction) == 1 + 2 * len(operands) && int(instruction[0]) == int(op) && (rangeindex == 0 ==> int(instruction[1]) * 256 + int(instruction[2]) == operands[0])
+
+// ReadOperands decodes what Make encoded.
+//@ func ReadOperands(def *OpDefinition, ins Instructions) (ops []int, n int)
+//@   props C17
+//@   requires def != nil && len(def.OperandWidths) <= 1 && (len(def.OperandWidths) == 1 ==> def.OperandWidths[0] == 2)
+//@   requires[enough-bytes] len(ins) >= 2 * len(def.OperandWidths)
+//@   ensures[C17 count] len(ops) == len(def.OperandWidths) && n == 2 * len(def.OperandWidths)
+//@   ensures[C17 operand-decoded] len(def.OperandWidths) == 1 ==> ops[0] == int(ins[0]) * 256 + int(ins[1])
+//@   modifies nothing
+//@   loop 1 modifies operands[*]
+//@   loop 1 invariant -1 <= rangeindex && rangeindex < len(def.OperandWidths) && offset == 2 * (rangeindex + 1) && fresh(operands) && len(operands) == len(def.OperandWidths) && (rangeindex == 0 ==> operands[0] == int(ins[0]) * 256 + int(ins[1]))
+
+// Exactly these opcodes take one (two-byte) operand; all others take none (read off the table literal).
+//@ pure hasOperand(op Opcode) bool = op == OpConstant || op == OpGetGlobal || op == OpSetGlobal || op == OpDrop || op == OpGetLocal || op == OpSetLocal || op == OpArray || op == OpMap || op == OpJump || op == OpJumpOnFalse || op == OpStepRange || op == OpIterRange
+//@ global forall(op, Opcode, has(definitions, op) ==> (len(definitions[op].OperandWidths) == 1 <==> hasOperand(op)))
+//@ global has(definitions, OpConstant) && has(definitions, OpArray) && has(definitions, OpMap) && has(definitions, OpTrue) && has(definitions, OpFalse)
+
+// ---- the compiler must only emit operands that fit the two bytes they are encoded in ----
+
+// Compiling reads the syntax tree and the opcode table; it writes neither.
+//@ owned OpDefinition.OperandWidths
+//@ frameset compileFrame = parser., elem:parser.Node, map:string:parser.Node, elem:string@parser.MapLiteral.Order, bytecode.OpDefinition, map:bytecode.Opcode:*bytecode.OpDefinition, elem:int@bytecode.OpDefinition.OperandWidths
+
+//@ func (c *Compiler) addInstruction(ins []byte) (pos int)
+//@   props C17
+//@   ensures[C17 position] pos == old(len(c.instructions)) && len(c.instructions) == pos + len(ins)
+//@   modifies c.instructions, class elem:byte
+
+//@ func (c *Compiler) addConstant(obj value) (r int)
+//@   props C17
+//@   ensures[C17 index-of-new-constant] r == old(len(c.constants)) && len(c.constants) == r + 1 && c.constants[r] == obj
+//@   modifies c.constants, class elem:bytecode.value
+
+//@ func (c *Compiler) emitPos(op Opcode, operands []int) (pos int, err error)
+//@   props C17
+//@   requires[operand-count] has(definitions, op) ==> len(operands) == len(definitions[op].OperandWidths)
+//@   requires[operand-fits] forall(i, int, 0 <= i && i < len(operands) ==> 0 <= operands[i] && operands[i] < 65536)
+//@   ensures[C17 appended] err == nil ==> pos == old(len(c.instructions)) && len(c.instructions) == pos + 1 + 2 * len(operands)
+//@   ensures[C17 unknown-opcode] (err == nil) <==> has(definitions, op)
+//@   modifies c.instructions, class elem:byte
+
+//@ func (c *Compiler) emit(op Opcode, operands []int) (err error)
+//@   props C17
+//@   requires[operand-count] has(definitions, op) ==> len(operands) == len(definitions[op].OperandWidths)
+//@   requires[operand-fits] forall(i, int, 0 <= i && i < len(operands) ==> 0 <= operands[i] && operands[i] < 65536)
+//@   ensures[C17 unknown-opcode] (err == nil) <==> has(definitions, op)
+//@   modifies c.instructions, class elem:byte
+
+// Compile: only the emission sites of Compile itself are checked here (the compile* helpers are not under contract).
+//@ func (c *Compiler) Compile(node parser.Node) (err error)
+//@   props C17
+//@   requires node != nil && ref(node) != 0
+//@   requires[assumed-wf-literals] forall(a, *parser.ArrayLiteral, forall(i, int, 0 <= i && i < len(a.Elements) ==> a.Elements[i] != nil && ref(a.Elements[i]) != 0)) && forall(m, *parser.MapLiteral, forall(k, string, has(m.Pairs, k) ==> m.Pairs[k] != nil && ref(m.Pairs[k]) != 0) && forall(i, int, 0 <= i && i < len(m.Order) ==> has(m.Pairs, m.Order[i]))) && forall(g, *parser.GroupExpression, g.Expr != nil && ref(g.Expr) != 0)
+//@   modifies allbut compileFrame
+//@   loop 1 modifies allbut compileFrame
+//@   loop 2 modifies allbut compileFrame
+
+// Statement and expression compilers called from Compile: not under contract (any effect, any result).
+//@ func (c *Compiler) compileBinaryExpression(expr *parser.BinaryExpression) (err error)
+//@   noverify not under contract
+//@   modifies allbut compileFrame
+//@ func (c *Compiler) compileBlockStatement(block *parser.BlockStatement) (err error)
+//@   noverify not under contract
+//@   modifies allbut compileFrame
+//@ func (c *Compiler) compileForStatement(stmt *parser.ForStmt) (err error)
+//@   noverify not under contract
+//@   modifies allbut compileFrame
+//@ func (c *Compiler) compileIfStatement(stmt *parser.IfStmt) (err error)
+//@   noverify not under contract
+//@   modifies allbut compileFrame
+//@ func (c *Compiler) compileWhileStatement(stmt *parser.WhileStmt) (err error)
+//@   noverify not under contract
+//@   modifies allbut compileFrame
+//@ func (c *Compiler) compileBreakStatement(_ *parser.BreakStmt) (err error)
+//@   noverify not under contract
+//@   modifies allbut compileFrame
+//@ func (c *Compiler) compileSliceExpression(expr *parser.SliceExpression) (err error)
+//@   noverify not under contract
+//@   modifies allbut compileFrame
+//@ func (c *Compiler) compileUnaryExpression(expr *parser.UnaryExpression) (err error)
+//@   noverify not under contract
+//@   modifies allbut compileFrame
+//@ func (c *Compiler) compileProgram(prog *parser.Program) (err error)
+//@   noverify not under contract
+//@   modifies allbut compileFrame
+//@ func (c *Compiler) compileDecl(decl *parser.Decl) (err error)
+//@   noverify not under contract
+//@   modifies allbut compileFrame
+//@ func (c *Compiler) compileAssignment(stmt *parser.AssignmentStmt) (err error)
+//@   noverify not under contract
+//@   modifies allbut compileFrame
+//@ func (c *Compiler) compileVar(variable *parser.Var) (err error)
+//@   noverify not under contract
+//@   modifies allbut compileFrame
+//@ func (c *Compiler) compileIndexExpression(expr *parser.IndexExpression) (err error)
+//@   noverify not under contract
+//@   modifies allbut compileFrame
